@@ -372,3 +372,70 @@ func H12two_sub_unsub() {
 	vrtReach("C12.two_completed")
 	svc.stop()
 }
+
+// H12two_from_completion: the application issues its next request from INSIDE a completion callback (the
+// usual way to chain publishes), or from another goroutine while a completion callback is still running
+// (it takes its time). The connection keeps working: the second request goes out, is acknowledged, and
+// its completion fires exactly once as well (round-9 change C12-18: a per-connection mutex held both
+// while a request is registered and sent and while a completion callback runs).
+func H12two_from_completion() {
+	svc, c := vrtClientService()
+	done := [2]int{}
+	var err2 error = fmt.Errorf("second request never issued")
+	mk := func(i int) *message.PublishMessage {
+		m := message.NewPublishMessage()
+		m.SetTopic([]byte("t"))
+		m.SetPayload([]byte{byte('a' + i)})
+		m.SetQoS(1 + byte(vrtChoice("qos", 2)))
+		return m
+	}
+	m1, m2 := mk(0), mk(1)
+	inside := vrtBool("second_request_from_inside_the_callback")
+	g := vrtNewGate()
+	second := func() {
+		err2 = svc.publish(m2, func(msg, ack message.Message, err error) error {
+			done[1]++
+			return nil
+		})
+	}
+	err := svc.publish(m1, func(msg, ack message.Message, err error) error {
+		done[0]++
+		if inside {
+			second()
+		} else {
+			g.mu.Lock() // the callback takes its time
+			for !g.open {
+				g.cond.Wait()
+			}
+			g.mu.Unlock()
+		}
+		return nil
+	})
+	vrtAssert("C12.call_ok", err == nil)
+	vrtQuiesce()
+	ack := func(m *message.PublishMessage) {
+		c.peerTake()
+		if m.QoS() == 1 {
+			c.peerSend(specEncode(&specPkt{Typ: specPUBACK, ID: m.PacketID()}))
+		} else {
+			c.peerSend(specEncode(&specPkt{Typ: specPUBREC, ID: m.PacketID()}))
+			vrtQuiesce()
+			c.peerSend(specEncode(&specPkt{Typ: specPUBCOMP, ID: m.PacketID()}))
+		}
+		vrtQuiesce()
+	}
+	ack(m1)
+	if !inside {
+		vrtGo(second)
+		vrtQuiesce()
+		g.release()
+		vrtJoin()
+		vrtQuiesce()
+	}
+	vrtAssert("C12.call_ok", err2 == nil)
+	vrtAssert("C12.completion_once_after_ack", done[0] == 1 && done[1] == 0)
+	ack(m2)
+	vrtAssert("C12.both_completed_once", done[0] == 1 && done[1] == 1)
+	vrtReach("C12.from_completion")
+	svc.stop()
+}
